@@ -1581,6 +1581,15 @@ def metacall():
                 # System Predicate string
                 return Predicate.System(arg)
 
+        if cls is Predicate:
+            # System Predicate spec, e.g. (-1, 0, 2). These are enum members
+            # and cannot be constructed, so rebuilding from spec or ident must
+            # not depend on a cache hit.
+            try:
+                return Predicate.System[spec[0] if len(spec) == 1 else spec]
+            except (KeyError, TypeError):
+                pass
+
         # Invoked class name.
         clsname = cls.__name__
         
